@@ -182,6 +182,7 @@ def run_st(pu, spec, B, script, schedule, rng, wall=20.0, fallback='random'):
         s.cv.notify_all()
     for t in s.os_threads:
         t.join(2.0)
+    common.tick()
     return dict(kind='st', spec=spec, iterfail=iterfail, B=B, script=script, schedule=list(schedule), choices=s.choices, enabled_log=s.enabled_log, log=s.log,
                 delivered=delivered, outcome=outcome, worker_done_at_return=worker_done_at_return,
                 pulls_after_end=src.pulls_after_end, threads_alive=sum(t.is_alive() for t in s.os_threads), K=K)
@@ -354,6 +355,7 @@ def run_pool(pu, spec, B, W, bad, script, schedule, rng, wall=20.0, fallback='ra
         s.cv.notify_all()
     for t in s.os_threads:
         t.join(2.0)
+    common.tick()
     return dict(kind='pool', spec=spec, iterfail=iterfail, B=B, W=W, bad=sorted(bad), exc_kind=exc_kind, script=script, schedule=list(schedule), choices=s.choices, enabled_log=s.enabled_log,
                 log=s.log, delivered=delivered, outcome=outcome, calls=fn.calls, calls_after_end=fn.calls_after_end,
                 pulls_after_end=src.pulls_after_end, threads_alive=sum(t.is_alive() for t in s.os_threads), K=K)
@@ -878,6 +880,7 @@ def backend_checks(ld, r, tier, prop):
                                 variants.append(('parmap.items', lambda: src.map(fn, num_workers=w, buffer_size=b, backend=be).items()))
                         for name, make in variants:
                             runs += 1
+                            common.tick()
                             got = b_observe(make)
                             if name.endswith('.items'):
                                 # (key, value) pairs: check the keys, then compare the values like the other variants
@@ -972,6 +975,7 @@ def shape_checks(ld, r, tier):
                         variants.append(('prefetch(1).values', lambda: base.map(fn), lambda: base.map(fn).prefetch(1, b)))
                     for name, seq, par in variants:
                         runs += 1
+                        common.tick()
                         a, c = obs(lambda: iter(seq())), obs(lambda: iter(par()))
                         if a != c and not (a[0] == 'err' and c[0] == 'err'):
                             fails.append(f'backend {be} num_workers={w} buffer_size={b}: {name} over a {shape} input (n={n}, function table {table}): parallel {c} vs sequential {a}')
